@@ -12,6 +12,7 @@ package storgen
 
 import (
 	"fmt"
+	"math/big"
 	"sort"
 	"strings"
 
@@ -61,8 +62,10 @@ func ContContract(e, k int) string {
 	var mk, d, refT, dr, key, kd string
 	switch e {
 	case EInt:
-		mk, d = "return n", "return x"
-		refT, dr = "Int", "return x"
+		// every 13th Int is huge (8000+ bits): a scalar that cannot be inlined and lives in its own slab
+		mk = "if n % 13 == 0 && n > 0 { return D.big() * n + n }; return n"
+		d = "return x % 1000003"
+		refT, dr = "Int", "return x % 1000003"
 	case EStr:
 		mk = "return D.str(n, D.slen(n))"
 		d = "return D.ds(x)"
@@ -76,10 +79,13 @@ func ContContract(e, k int) string {
 		d = "return D.da(x)"
 		refT, dr = "&[Int]", "return D.da(*x)"
 	}
+	// every 17th key is not inlinable either (huge Int / 300-byte String)
 	if k == KeyInt {
-		key, kd = "return k", "return k"
+		key = "if k % 17 == 0 && k > 0 { return D.big() * k + k }; return k"
+		kd = "if k > 1000000000000 { return k % D.big() }; return k"
 	} else {
-		key, kd = `return "k".concat(k.toString())`, "return Int.fromString(k.slice(from: 1, upTo: k.length))!"
+		key = `if k % 17 == 0 && k > 0 { return D.str(0, 300).concat("k").concat(k.toString()) }; return "k".concat(k.toString())`
+		kd = "var b = 1; if k.length > 100 { b = 301 }; return Int.fromString(k.slice(from: b, upTo: k.length))!"
 	}
 	r := strings.NewReplacer("KEYBODY", key, "KDBODY", kd, "MKBODY", mk, "DRBODY", dr, "DBODY", d, "REFT", refT, "ELEM", E, "KEY", K)
 	return r.Replace(`access(all) contract D {
@@ -124,6 +130,15 @@ func ContContract(e, k int) string {
     return h
   }
   access(all) fun fail(_ m: String) { panic(m) }
+  access(all) fun big(): Int {
+    var h = 1
+    var i = 0
+    while i < 125 { h = h * 18446744073709551616; i = i + 1 }
+    return h
+  }
+  access(all) fun echo(_ a: [ELEM]): [ELEM] { return a }
+  access(all) fun echoC(_ a: [ELEM; 8]): [ELEM; 8] { return a }
+  access(all) fun echoD(_ m: {KEY: ELEM}): {KEY: ELEM} { return m }
   access(all) fun mk(_ n: Int): ELEM { MKBODY }
   access(all) fun mkMany(_ from: Int, _ count: Int): [ELEM] {
     var r: [ELEM] = []
@@ -202,13 +217,22 @@ func contArrLen(n int) int {
 	return n % 6
 }
 
+// bigModP is 2^8000 mod 1000003 (D.big() reduced by the Int digest modulus).
+var bigModP = func() int64 {
+	b := new(big.Int).Exp(big.NewInt(2), big.NewInt(8000), big.NewInt(1000003))
+	return b.Int64()
+}()
+
 func daInts(from, n int) int { return n*1009 + n*from + n*(n-1)/2 }
 
 // ElemDigest mirrors D.d(D.mk(n)).
 func ElemDigest(e, n int) int {
 	switch e {
 	case EInt:
-		return n
+		if n%13 == 0 && n > 0 {
+			return int((bigModP*int64(n) + int64(n)) % 1000003)
+		}
+		return n % 1000003
 	case EStr:
 		// D.str: "s<n>" doubled while it fits, then padded with 'x'; only length and the first 8 bytes count
 		base := fmt.Sprintf("s%d", n)
@@ -244,6 +268,8 @@ func elemEqual(e, a, b int) bool {
 // elemBig: the element is stored outside its parent slab.
 func elemBig(e, n int) bool {
 	switch e {
+	case EInt:
+		return n%13 == 0 && n > 0
 	case EStr:
 		return contStrLen(n) >= 600
 	case EArr:
@@ -506,6 +532,12 @@ func (m *ContModel) apply(i int, o ContOp, x *ContExpect) (fail string) {
 			}
 		case "digest":
 			log("%s", seqDigest(m.digests(s.VA)))
+		case "copy":
+			dd := seqDigest(m.digests(s.VA))
+			log("%s %s", dd, dd)
+		case "smallCopy":
+			dd := seqDigest(m.digests([]int{o.N, o.N + 1}))
+			log("%s %s", dd, dd)
 		default:
 			panic("bad va op " + o.Kind)
 		}
@@ -551,6 +583,9 @@ func (m *ContModel) apply(i int, o ContOp, x *ContExpect) (fail string) {
 			}
 		case "toVariableSized", "digest":
 			log("%s", seqDigest(m.digests(s.CA[:])))
+		case "copy":
+			dd := seqDigest(m.digests(s.CA[:]))
+			log("%s %s", dd, dd)
 		case "map":
 			r := make([]int, ConstLen)
 			for k, v := range s.CA {
@@ -649,6 +684,9 @@ func (m *ContModel) apply(i int, o ContOp, x *ContExpect) (fail string) {
 			log("%d", cnt)
 		case "digest":
 			log("%s", m.dictDigest(s.D))
+		case "copy":
+			dd := m.dictDigest(s.D)
+			log("%s %s", dd, dd)
 		default:
 			panic("bad d op " + o.Kind)
 		}
@@ -705,6 +743,10 @@ func contOpAllowed(o ContOp, elem int, local bool) bool {
 	switch o.Kind {
 	case "concatAssign", "filterAssign", "fromVariable": // assign to the container variable itself
 		if !local {
+			return false
+		}
+	case "copy": // through a reference the containers are copied by dereferencing, which needs primitive elements
+		if !local && (!elemPrimitive(elem) || o.On == "d") {
 			return false
 		}
 	case "slice", "reverse", "concat", "filter", "map", "toConstantSized", "toVariableSized":
@@ -833,6 +875,23 @@ func (c contRender) op(i int, o ContOp) (lines []string) {
 			w(`if let t%d = va.toConstantSized<[%s; %d]>() { ca = t%d; log("%d:set") } else { log("%d:nil") }`, i, E, ConstLen, i, i, i)
 		case "digest":
 			logS(fmt.Sprintf(`%s(%s)`, hfun, c.ref(o.On)))
+		case "copy":
+			// let-copy, then argument passing + return: three transfers of the whole container
+			val, ty, echo := x, "["+E+"]", "D.echo"
+			if !c.local {
+				val = "*" + x
+			}
+			if o.On == "ca" {
+				ty, echo = fmt.Sprintf("[%s; %d]", E, ConstLen), "D.echoC"
+			}
+			w(`let c%d = %s`, i, val)
+			w(`let r%d = %s(%s)`, i, echo, val)
+			logS(fmt.Sprintf(`%s(&c%d as &%s).concat(" ").concat(%s(&r%d as &%s))`, hfun, i, ty, hfun, i, ty))
+		case "smallCopy":
+			w(`let t%d = [D.mk(%d), D.mk(%d)]`, i, o.N, o.N+1)
+			w(`let c%d = t%d`, i, i)
+			w(`let r%d = D.echo(t%d)`, i, i)
+			logS(fmt.Sprintf(`D.hr(&c%d as &[%s]).concat(" ").concat(D.hr(&r%d as &[%s]))`, i, E, i, E))
 		default:
 			panic("bad array op " + o.Kind)
 		}
@@ -894,6 +953,10 @@ func (c contRender) op(i int, o ContOp) (lines []string) {
 			logS(fmt.Sprintf(`c%d.toString()`, i))
 		case "digest":
 			logS(fmt.Sprintf(`D.hd(%s)`, c.ref("d")))
+		case "copy":
+			w(`let c%d = d`, i)
+			w(`let r%d = D.echoD(d)`, i)
+			logS(fmt.Sprintf(`D.hd(&c%d as &{%s: %s}).concat(" ").concat(D.hd(&r%d as &{%s: %s}))`, i, K, E, i, K, E))
 		default:
 			panic("bad d op " + o.Kind)
 		}
@@ -991,9 +1054,9 @@ type ContGenConfig struct {
 var contBulk = []int{1, 3, 60, 8, 150, 25, 400}
 
 var vaKinds = []string{"append", "appendAll", "get", "set", "insert", "remove", "removeLast", "removeFirst", "dropMany", "length", "digest",
-	"slice", "reverse", "concat", "concatAssign", "filter", "filterAssign", "map", "contains", "firstIndex", "toConstantSized"}
-var caKinds = []string{"get", "set", "digest", "reverse", "contains", "firstIndex", "toVariableSized", "map", "filter", "fromVariable"}
-var dKinds = []string{"insert", "insertMany", "get", "set", "remove", "setNil", "containsKey", "length", "digest", "removeMany", "enumerate", "forEachStop"}
+	"slice", "reverse", "concat", "concatAssign", "filter", "filterAssign", "map", "contains", "firstIndex", "toConstantSized", "copy", "smallCopy"}
+var caKinds = []string{"get", "set", "digest", "reverse", "contains", "firstIndex", "toVariableSized", "map", "filter", "fromVariable", "copy"}
+var dKinds = []string{"insert", "insertMany", "get", "set", "remove", "setNil", "containsKey", "length", "digest", "removeMany", "enumerate", "forEachStop", "copy"}
 
 // GenContHistory draws a container history.
 func GenContHistory(s Src, cfg ContGenConfig) ContHistory {
@@ -1089,7 +1152,7 @@ func genContProbe(s Src, m *ContModel) (ContOp, bool) {
 	}
 	elemAt := func() int {
 		if n == 0 || chance(s, "absent", 20) {
-			return 1000000 + s.Intn("absentseed", 1000)
+			return 900001 + 13*s.Intn("absentseed", 1000)
 		}
 		return st.VA[pos()]
 	}
